@@ -35,7 +35,7 @@ C13 ==
   /\ (E.again = "differs") => Report("C13", "the same list renders differently the second time " \o E.name)
   /\ (E.again = "slice") => Report("C13", "a list built from a slice changes the caller's slice: the next list built from it renders differently " \o E.name)
 
-CfgAlias(al) == IF al = "" THEN Cfg0 ELSE [Cfg0 EXCEPT !.hints = [p \in {"x/d"} |-> Def(al, TRUE)]]
+CfgAlias(al) == IF al = "" THEN Cfg0 ELSE IF al = "@pkg" THEN [Cfg0 EXCEPT !.prefix = "pkg"] ELSE [Cfg0 EXCEPT !.hints = [p \in {"x/d"} |-> Def(al, TRUE)]]
 C16 ==
   /\ E.ev = "c16"
   /\ (E.rv.status = "nil" /\ Flat(RenderFile(CfgAlias(E.alias), Fc0, <<E.otree>>, <<>>, <<"x/d", "y/d">>)[1]) # E.rv.raw) => Report("DRIFT", "c16")
